@@ -23,7 +23,7 @@ Recorded ==
 
 Unexplained ==
     /\ bad' = bad \cup {"Unexplained"}
-    /\ UNCHANGED <<pres, pavail, curposs, ck, cst, ca, cres, aux, canc, fired>>
+    /\ UNCHANGED <<pres, pavail, curposs, late, ck, cst, ca, cres, aux, canc, fired>>
 
 Apply(e) ==
     CASE e.ev = "reset"  -> PReset
@@ -44,7 +44,8 @@ Apply(e) ==
       [] e.ev = "fire"   -> PFire(e.id, e.how)
       [] e.ev = "quiet"  -> PQuiet(SeqToSet(e.blk))
       [] e.ev = "spin"   -> PSpin(e.actor)
-      [] e.ev \in {"leak", "note", "end"} -> UNCHANGED pvars
+      \* "step" / "teardown": controller steps logged for X-level trace validation (PromiseXTrace.tla)
+      [] e.ev \in {"leak", "note", "end", "step", "teardown"} -> UNCHANGED pvars
       [] OTHER           -> Unexplained
 
 TStep ==
